@@ -109,13 +109,31 @@ def execute(scn, order_seed=0):
             return digest
         # (whatever is declared with its documented default - nothing before / after, not
         #  required - is left to the default)
+        def names(xs):
+            # "Iterable[str]": a list, a tuple, a set - or a one-shot iterator
+            how = crnd.randrange(5)
+            xs = list(xs)
+            return [xs, tuple(xs), frozenset(xs), iter(xs), (x for x in xs)][how]
         kw = {}
         if scn["before"][p]:
-            kw["before"] = scn["before"][p]
+            kw["before"] = names(scn["before"][p])
         if scn["after"][p]:
-            kw["after"] = scn["after"][p]
+            kw["after"] = names(scn["after"][p])
         if scn["req"][p]:
             kw["required"] = True
+        if crnd.random() < 0.25:
+            # the plugin is a callable OBJECT, and one without a hash (a dataclass instance, say)
+            fn = digest
+
+            class Digest:
+                __hash__ = None
+
+                def __eq__(self, other):
+                    return self is other
+
+                def __call__(self, content):
+                    return fn(content)
+            digest = Digest()
         return constraints(**kw)(digest)
 
     eps = [FakeEntryPoint(p, make_digest(p)) for p in scn["inst"]]
